@@ -20,6 +20,7 @@ THEOREMS = [
     "GeoVerif.Ws.update_frame",
     "GeoVerif.Ws.setAttr_frame",
     "GeoVerif.Ws.setDset_frame",
+    "GeoVerif.Ws.setTyp_frame",
     "GeoVerif.Ws.rename_frame",
     "GeoVerif.Ws.insert_frame",
     "GeoVerif.Ws.linksL_insertL",
@@ -138,6 +139,16 @@ def make_hook():
                 used_types(k)
         used_types(ptree)
         tbad = {k for k in tch if k not in allowed_t and k in used and k in cur["types"]}
+        # a type that an entity outside the footprint still uses must stay in the types container
+        used_after = set()
+
+        def used_outside(n):
+            if n["uid"] not in fp:
+                used_after.add(inv.get(n["typ"]))
+            for k in n["kids"]:
+                used_outside(k)
+        used_outside(tree)
+        tbad |= {k for k in pcur["types"] if k not in cur["types"] and k in used_after}
         if tbad:
             s.failures.append((f"{o} changed unrelated type nodes {sorted(tbad)}", f"C09:{o}:touched-unrelated-type"))
     return hook
@@ -147,8 +158,26 @@ def nontrivial_post(ctx, s, case):
     pass
 
 
+def directed(rng, ops):
+    """Half of the histories get a block that makes types shared before re-typing: an object, a numeric data set, one
+    to three more that share its type, one with a type of its own, then re-typings (biased to data whose type has other users)."""
+    if rng.random() < 0.5:
+        return ops
+    r = lambda: rng.randrange(1 << 20)  # noqa: E731
+    fl = wsh.DATA_TYPES.index(rng.choice(["FLOAT", "INTEGER"]))
+    nt = len(wsh.DATA_TYPES)
+    a = r()
+    block = [{"k": "create_object", "a": r(), "b": 0, "c": r(), "uid": None},
+             {"k": "add_data", "a": a, "b": fl + nt * r(), "c": 1 + 3 * r(), "uid": None}]
+    block += [{"k": "add_data", "a": a, "b": fl + nt * r(), "c": 3 * r(), "uid": None} for _ in range(rng.randrange(1, 4))]
+    block += [{"k": "add_data", "a": a, "b": fl + nt * r(), "c": 1 + 3 * r(), "uid": None}]
+    block += [{"k": "retype", "a": r(), "b": r(), "c": r(), "uid": None} for _ in range(rng.randrange(1, 3))]
+    at = rng.randrange(0, len(ops) + 1)
+    return ops[:at] + block + ops[at:]
+
+
 def run(ctx: Ctx):
-    wscheck.run_props(ctx, WANT, hook=make_hook(), n_quick=40, n_thorough=1000)
+    wscheck.run_props(ctx, WANT, hook=make_hook(), n_quick=40, n_thorough=1000, weights={"retype": 6, "add_data": 10}, shape=directed)
 
 
 def replay(ctx: Ctx, payload):
